@@ -621,6 +621,7 @@ func main() {
 	var per []string
 	var pmodeExecs int64
 	outcomeTotal := 0
+	r.JobName = func(j int) string { return fmt.Sprintf("scenario %v", scs[j]) }
 	r.Sharded(len(scs), func(job int) any { return explore(r, root, scs[job]) }, func(job int, raw json.RawMessage) {
 		var sr shardResult
 		if err := json.Unmarshal(raw, &sr); err != nil {
